@@ -5,4 +5,5 @@ let () =
   | _ :: "exec-check" :: _ -> Exec_suite.run ()
   | _ :: "world-check" :: _ -> World_suite.run ()
   | _ :: "sysdata-check" :: _ -> Sysdata_suite.run ()
+  | _ :: "meta-check" :: _ -> Meta_suite.run ()
   | _ -> prerr_endline "usage: driver <suite>-check < lines"; exit 2
